@@ -88,7 +88,10 @@ class ThresholdOpenList:
 
             self.quota_function = _quota_fractional
         else:
-            self.quota_function = quota_function
+            self.quota_function = (
+                votelib.component.quota.construct(quota_function)
+                if quota_function is not None else None
+            )
         self.take_higher = take_higher
         self.accept_equal = accept_equal
         self.list_precedence = list_precedence
